@@ -59,7 +59,7 @@ NEGS_C09 = {"NEG_C09_SecondStopOverwritesCode.cfg": ["C09_FirstCodeWins"],
 
 # flavours whose scenarios reproduce a real watchdog expiry when they are run again (deterministic sequences, or
 # hundreds of repetitions of a race): such a rejection is reported only if a re-run of the scenario is rejected too
-CONFIRM_BY_RERUN = ("c09-twostop", "c09-pinned", "c09-backlog", "c10-flood")
+CONFIRM_BY_RERUN = ("c09-twostop", "c09-pinned", "c09-backlog", "c09-sysarb", "c10-flood")
 TIMEOUT_EVS = ("JoinTimeout", "GoneTimeout", "RunTimeout", "AwaitTimeout")
 
 
@@ -214,6 +214,22 @@ def gen_twostop_scenario(rng, sid, k):
     return sc
 
 
+def gen_sysarb_scenario(rng, sid, k):
+    """C09 "already stopped arbiters do not disturb this": the SYSTEM arbiter itself is stopped early (a stop command on
+    arbiter 0 from a foreign thread), the system loop turns, and only then - 40-80 ms later - the System is stopped from a
+    foreign thread or from a task on a worker arbiter: run() returns the code and every arbiter stops all the same."""
+    shapes = tuple(rng.choice(["running", "running", "busy"]) for _ in range(rng.randint(1, 2)))
+    sc = gen_scenario(rng, sid, (shapes, ["foreign", "arb"][k % 2], ["zero", "pos", "neg"][k % 3], 1), "c09")
+    for script in sc["senders"] + [a["owner"] for a in sc["arbs"]]:
+        script[:] = [c for c in script if c.get("arb") != 0]
+    sc["senders"] = [[{"arb": 0, "op": "stop"}]] + sc["senders"]
+    sc["stops"][0]["delay"] = rng.randint(40, 80)
+    sc["concurrent"] = False
+    sc["late"], sc["late_stop"] = False, None
+    sc["flavour"] = "c09-sysarb"
+    return sc
+
+
 def gen_pinned_scenario(rng, sid, rounds):
     """C09: `rounds` short Systems, every thread on ONE CPU (the driver pins a thread of its own, the threads created
     below it inherit the mask): 1-3 x Arbiter::new(), then System::stop at once by the same thread (system thread
@@ -345,7 +361,8 @@ def extras(count, flavour):
     if flavour == "c09":
         return {"pre": max(12, count * 18 // 100), "burst": max(9, count * 12 // 100),
                 "twostop": max(8, count * 4 // 100), "pinned": 2 if count <= 500 else 4,
-                "backlog": 2 if count <= 500 else 8, "rounds": max(8, count * 4 // 100)}
+                "backlog": 2 if count <= 500 else 8, "rounds": max(8, count * 4 // 100),
+                "sysarb": 6 if count <= 500 else 24}
     return {"self": max(12, count * 12 // 100), "rounds": max(8, count * 10 // 100), "teardown": max(8, count * 4 // 100),
             "flood": max(6, count * 2 // 100), "overlap": max(6, count * 2 // 100),
             "stoprace": 2 if count <= 500 else 4}
@@ -369,6 +386,7 @@ def gen_scenarios(rng, count, flavour):
         special += [("backlog", k) for k in range(ex["backlog"])]
         # 2-3 Systems one after another on ONE thread: exit code, registry and stop fan-out of every later System
         special += [("rounds", k) for k in range(ex["rounds"])]
+        special += [("sysarb", k) for k in range(ex["sysarb"])]
     else:
         special += [("self", k) for k in range(ex["self"])] + [("rounds", k) for k in range(ex["rounds"])]
         special += [("teardown", k) for k in range(ex["teardown"])]
@@ -394,6 +412,8 @@ def gen_scenarios(rng, count, flavour):
             sc = gen_stoprace_scenario(rng, sid, 400 if count <= 500 else 3000)
         elif which == "backlog":
             sc = gen_arb_backlog_scenario(rng, sid, k)
+        elif which == "sysarb":
+            sc = gen_sysarb_scenario(rng, sid, k)
         else:
             sc = gen_rounds_scenario(rng, sid)
         # spread them over the whole run list (the driver stops after a few runs with watchdog expiries)
